@@ -140,8 +140,12 @@ type Peer struct {
 	Inbox   []msg.Message
 	Reqs    int // ReqWorkConn messages received
 	Closed  bool
+	ClosedAt time.Duration
 	ReadErr error
 	OnReq   func(p *Peer) // called (in the reader thread) for every ReqWorkConn
+	OnSid   func(p *Peer, sid string)
+	SidProxies map[string]bool // names of this peer's xtcp proxies
+	WorkWrap func(proxy string, c net.Conn) (io.ReadWriteCloser, error) // client-side enc/comp layer per proxy
 	Log     []string
 }
 
@@ -210,6 +214,7 @@ func (p *Peer) readLoop() {
 		m, err := msg.ReadMsg(p.rw)
 		if err != nil {
 			p.Closed = true
+			p.ClosedAt = p.W.X.Now()
 			p.ReadErr = err
 			p.Conn.Close()
 			return
@@ -416,6 +421,8 @@ type WorkRec struct {
 	Got     []byte
 	Conn    *vnet.StreamConn
 	Started bool
+	Sid     string
+	Wrap    func(c net.Conn) (io.ReadWriteCloser, error)
 }
 
 // AutoWork makes the peer answer every ReqWorkConn with a fresh work connection that
@@ -431,11 +438,33 @@ func (p *Peer) ServeOneWork() {
 	if err != nil {
 		return
 	}
+	p.serveWork(c)
+}
+
+// ServeWorkOn serves an already opened work connection (StartWorkConn, then echo).
+func (p *Peer) ServeWorkOn(c *vnet.StreamConn) { p.serveWork(c) }
+
+func (p *Peer) serveWork(c *vnet.StreamConn) {
 	rec := &WorkRec{Peer: p.Name, Conn: c}
 	p.W.Works = append(p.W.Works, rec)
-	var sw msg.StartWorkConn
-	if err := msg.ReadMsgInto(c, &sw); err != nil {
+	raw, err := msg.ReadMsg(c)
+	if err != nil {
 		rec.Err = err.Error()
+		c.Close()
+		return
+	}
+	if ns, ok := raw.(*msg.NatHoleSid); ok {
+		rec.Sid = ns.Sid
+		vs.Observe("work peer=%s got NatHoleSid", p.Name)
+		if p.OnSid != nil {
+			p.OnSid(p, ns.Sid)
+		}
+		c.Close()
+		return
+	}
+	sw, ok := raw.(*msg.StartWorkConn)
+	if !ok {
+		rec.Err = fmt.Sprintf("unexpected %T on work connection", raw)
 		c.Close()
 		return
 	}
@@ -448,18 +477,41 @@ func (p *Peer) ServeOneWork() {
 		return
 	}
 	vs.Observe("work peer=%s proxy=%s src=%s", p.Name, rec.Proxy, rec.Src)
-	buf := make([]byte, 256)
+	if p.SidProxies[rec.Proxy] {
+		// xtcp: the work connection only carries the session id of a NAT-hole request
+		var ns msg.NatHoleSid
+		if err := msg.ReadMsgInto(c, &ns); err != nil {
+			rec.Err = err.Error()
+		} else {
+			rec.Sid = ns.Sid
+			if p.OnSid != nil {
+				p.OnSid(p, ns.Sid)
+			}
+		}
+		c.Close()
+		return
+	}
+	var rwc io.ReadWriteCloser = c
+	if p.WorkWrap != nil {
+		var werr error
+		if rwc, werr = p.WorkWrap(rec.Proxy, c); werr != nil {
+			rec.Err = werr.Error()
+			c.Close()
+			return
+		}
+	}
+	buf := make([]byte, 4096)
 	for {
-		n, err := c.Read(buf)
+		n, err := rwc.Read(buf)
 		if n > 0 {
 			rec.Got = append(rec.Got, buf[:n]...)
-			if _, werr := c.Write(buf[:n]); werr != nil {
-				c.Close()
+			if _, werr := rwc.Write(buf[:n]); werr != nil {
+				rwc.Close()
 				return
 			}
 		}
 		if err != nil {
-			c.Close()
+			rwc.Close()
 			return
 		}
 	}
@@ -556,6 +608,12 @@ func StdEnd(x *vs.Exec) string {
 
 // Reg registers a proxy and renders the outcome: "ok<remoteAddr>", "err:<text>" or "noanswer".
 func (p *Peer) Reg(m *msg.NewProxy) string {
+	if m.ProxyType == "xtcp" {
+		if p.SidProxies == nil {
+			p.SidProxies = map[string]bool{}
+		}
+		p.SidProxies[m.ProxyName] = true
+	}
 	r := p.NewProxy(m)
 	if r == nil {
 		return "noanswer"
@@ -748,4 +806,13 @@ func (w *World) CensusDetail() string {
 		}
 	}
 	return strings.Join(out, "\n")
+}
+
+// ServeOneWorkWith is ServeOneWork with a hook to fill in the credentials of the NewWorkConn message.
+func (p *Peer) ServeOneWorkWith(mut func(m *msg.NewWorkConn)) {
+	c, err := p.WorkConn(p.RunID, mut)
+	if err != nil {
+		return
+	}
+	p.serveWork(c)
 }
